@@ -529,6 +529,10 @@ C11_failed(prev, step) ==
   NewErrs(prev, step.obs, "expr") # {} =>
      \/ step.obs.wf = "failed"
      \/ prev.wf = "canceled" /\ step.obs.wf = "canceled"
+(* a workflow whose vars fail to render is failed from the start and says why *)
+C11_recorded_vars(d, step) ==
+  (step.call.op = "new" /\ \E i \in 1..Len(d.vars) : d.vars[i][2].k = "bad") =>
+     step.obs.wf = "failed" /\ HasErr(step.obs, "expr")
 (* an accepted rerun resumes the workflow only if preparing the re-executions raised no expression error  *)
 (* (the retry policy of a task is evaluated when its new execution record is created): no expression    *)
 (* error of a task the rerun covers may stand while the workflow is resuming                            *)
@@ -794,6 +798,7 @@ Failing(d, h0, h1, prev, step) ==
   FP("C11", "C11_recorded_transition", C11_recorded_transition(d, h1, prev, step)) \cup
   FP("C11", "C11_recorded_render", C11_recorded_render(d, h0, prev, step)) \cup
   FP("C11", "C11_recorded_retry",  C11_recorded_retry(d, h1, prev, step)) \cup
+  FP("C11", "C11_recorded_vars",   C11_recorded_vars(d, step)) \cup
   FP("C11", "C11_rerun_failed",    C11_rerun_failed(prev, step)) \cup
   FP("C11", "C11_failed",          C11_failed(prev, step)) \cup
   FP("C11", "C11_no_offer_after",  C11_no_offer_after(h1, step)) \cup
